@@ -3,6 +3,7 @@ use std::path::PathBuf;
 use serde_json::json;
 use vsim::{
     chan_inline::ChanInline,
+    fsim::Fsim,
     choices::Choices,
     core::{self, BatchCfg, Engine, Part, RunCtx},
 };
@@ -32,6 +33,8 @@ fn static_prop(p: &str) -> &'static str {
 fn engines_for(property: &str) -> Vec<(Box<dyn Engine>, u64, u64)> {
     match property {
         "C06" | "C07" | "C08" | "C09" => vec![(Box::new(ChanInline), 300_000, 6_000_000)],
+        "C10" => vec![(Box::new(Fsim { mode: "C10" }), 5_000, 200_000)],
+        "C11" => vec![(Box::new(Fsim { mode: "C11" }), 200_000, 5_000_000)],
         _ => vec![],
     }
 }
@@ -39,6 +42,8 @@ fn engines_for(property: &str) -> Vec<(Box<dyn Engine>, u64, u64)> {
 fn engine_by_name(name: &str) -> Option<Box<dyn Engine>> {
     match name {
         "chan-inline" => Some(Box::new(ChanInline)),
+        "fsim-faults" => Some(Box::new(Fsim { mode: "C10" })),
+        "fsim-rolling" => Some(Box::new(Fsim { mode: "C11" })),
         _ => None,
     }
 }
@@ -79,7 +84,7 @@ fn main() {
             }
             let res = core::report(
                 property,
-                "exploration",
+                if property == "C10" { "fault_enumeration" } else { "exploration" },
                 tier,
                 seed,
                 &mut parts,
